@@ -112,13 +112,20 @@ theorem chain_property (c : ChainIn) (hf : RetryFits c) : PChainB c (loadChain c
   unfold loadChain
   simp only
   split
-  · rfl
+  · next h =>
+    have : ¬ (0 ≤ c.ri.getD defRi) := by omega
+    simp [PChainB, chainValid, this]
   · next hri =>
     split
-    · rfl
+    · next h =>
+      simp only [Bool.and_eq_true, decide_eq_true_eq] at h
+      have : ¬ (1 ≤ c.bc.getD defBc) := by omega
+      simp [PChainB, chainValid, h.1, this]
     · next hbc =>
       split
-      · rfl
+      · next h =>
+        have : ¬ (1 ≤ c.bi.getD defBi) := by omega
+        simp [PChainB, chainValid, this]
       · next hbi =>
         have hri' : 0 ≤ c.ri.getD defRi := by omega
         have hbi' : 1 ≤ c.bi.getD defBi := by omega
@@ -245,9 +252,17 @@ theorem dur_property (neg : Bool) (terms : List (Nat × DUnit)) (hfit : durTotal
     PDur neg terms (parseDur neg terms) = true := by
   unfold parseDur
   split
-  · rfl
-  · cases hg : durGo 0 terms with
-    | none => rfl
+  · next h => simp [PDur, durValid, h]
+  · next hne =>
+    cases hg : durGo 0 terms with
+    | none =>
+      -- a rejected loop means the total does not fit (acceptance lemma, contrapositive)
+      have : ¬ (durTotal terms ≤ 2 ^ 63) := by
+        intro hle
+        have := durGo_accepts terms 0 (by omega)
+        rw [hg] at this; cases this
+      have h2 : ¬ (durTotal terms ≤ 2 ^ 63 - 1) := by omega
+      cases neg <;> simp [PDur, durValid, this, h2]
     | some d =>
       have hd := durGo_sum terms 0 d hg (by omega)
       simp only [Nat.zero_add] at hd
@@ -255,8 +270,23 @@ theorem dur_property (neg : Bool) (terms : List (Nat × DUnit)) (hfit : durTotal
       split
       · simp [PDur, hd, *]
       · split
-        · rfl
+        · next hnn hbig =>
+          have : ¬ (durTotal terms ≤ 2 ^ 63 - 1) := by omega
+          simp [PDur, durValid, hnn, this]
         · simp [PDur, hd, *]
+
+/-- **Durations, positive direction.** Every duration text of integer terms whose total fits int64 nanoseconds
+    (down to the most negative value) IS accepted, with exactly the written total. -/
+theorem dur_accepts (neg : Bool) (terms : List (Nat × DUnit)) (h : durValid neg terms = true) :
+    parseDur neg terms = some (if neg then -(durTotal terms : Int) else (durTotal terms : Int)) := by
+  simp only [durValid, Bool.and_eq_true, bne_iff_ne, ne_eq] at h
+  obtain ⟨hne, hfit⟩ := h
+  have hle : durTotal terms ≤ 2 ^ 63 := by cases neg <;> simp at hfit <;> omega
+  unfold parseDur
+  rw [if_neg hne, durGo_accepts terms 0 (by omega)]
+  cases neg
+  · simp at hfit; simp; omega
+  · simp
 
 /-- non-vacuity: `1h30m` is 5400 s; `-9223372036854775808ns` is the smallest Duration; one more overflows -/
 example : parseDur false [(1, .h), (30, .m)] = some 5400000000000 ∧
@@ -385,17 +415,46 @@ theorem str_property (f : SField) (v : Bytes) : PStr f v (loadStr f v) = true :=
 example : loadStr .enckey [81, 61, 61] = some [81, 61, 61] ∧ loadStr .enckey [] = none ∧
     loadStr .logfile [] = some SField.logfile.dflt ∧ loadStr .key [32, 61, 32] = some [32, 61, 32] := by decide
 
-/-- **Numeric strings.** A fee amount written as text loads as its decimal value or not at all, and a typed numeric
-    setting written as a string never loads: no octal / hex / binary reinterpretation of what was written. -/
-theorem numstr_property (s : Bytes) : PNumStr s (loadFee s) = true ∧ PNumStr s (loadTypedFromString s) = true := by
-  unfold PNumStr loadFee loadTypedFromString
-  cases decimalReading s <;> simp
+theorem scanDigits_spec (cs : Bytes) (acc : Nat) (seen : Bool) :
+    scanDigits acc seen cs =
+      if cs.all isDig = true then (if seen = true ∨ cs ≠ [] then some (acc * 10 ^ cs.length + positional cs) else none) else none := by
+  induction cs generalizing acc seen with
+  | nil => cases seen <;> simp [scanDigits, positional]
+  | cons c cs ih =>
+    simp only [scanDigits, List.all_cons, Bool.and_eq_true]
+    by_cases hc : isDig c = true
+    · simp only [hc, if_true, true_and, ih]
+      by_cases ha : cs.all isDig = true
+      · simp only [ha, if_true, true_or, List.length_cons, positional, ne_eq, reduceCtorEq, not_false_eq_true, or_true]
+        congr 1
+        rw [Nat.pow_succ]
+        have : (acc * 10 + (c.toNat - 48)) * 10 ^ cs.length = acc * (10 ^ cs.length * 10) + (c.toNat - 48) * 10 ^ cs.length := by
+          rw [Nat.add_mul, Nat.mul_assoc, Nat.mul_comm 10]
+        omega
+      · simp [ha]
+    · simp [hc]
+
+/-- **The fee parser computes the decimal value.** `big.Int.SetString(s, 10)` as modelled (sign, digit loop, fails on
+    the first non-digit: no underscores, no base prefixes) returns, for EVERY byte string, exactly the positional
+    decimal value of `[+-]?digits` and fails on everything else — both directions: no reinterpretation, and every
+    decimal numeral is accepted. -/
+theorem setString10_eq_spec (s : Bytes) : loadFee s = decimalSpec s := by
+  unfold loadFee setString10 decimalSpec
+  simp only [scanDigits_spec]
+  by_cases ha : (splitSign s).2.all isDig = true
+  · by_cases hn : (splitSign s).2 = []
+    · simp [ha, hn]
+    · simp [ha, hn]
+  · simp [ha]
+
+theorem fee_property (s : Bytes) : PFee s (loadFee s) = true := by
+  simp [PFee, setString10_eq_spec]
 
 /-- `0100000` is one hundred thousand (not 32768), `010` is ten, `0x10` / `1_000` / `1e3` / ` 5` are rejected -/
 example : loadFee [48, 49, 48, 48, 48, 48, 48] = some 100000 ∧ loadFee [48, 49, 48] = some 10 ∧
     loadFee [48, 120, 49, 48] = none ∧ loadFee [49, 95, 48, 48, 48] = none ∧ loadFee [49, 101, 51] = none ∧
     loadFee [32, 53] = none ∧ loadFee [43, 53] = some 5 ∧ loadFee [45, 53] = some (-5) ∧ loadFee [] = none ∧
-    PNumStr [48, 49, 48] (some 8) = false := by decide
+    PNumStr [48, 49, 48] (some 8) = false ∧ PFee [48, 49, 48] none = false := by decide
 
 /-! #### port texts (base-0 parsing as coded) -/
 
@@ -444,6 +503,8 @@ theorem port_text_plain (c : UInt8) (r : Bytes) (hc : 49 ≤ c.toNat ∧ c.toNat
       have : v % 65536 = v := Nat.mod_eq_of_lt (by simpa using hv)
       simp [this]; omega
     · simp [hv]
+      have : (2 : Nat) ^ 16 = 65536 := by decide
+      omega
 
 /-- the KNOWN base-0 point (findings: C20-port-base0): `010` loads as port 8, `0x50` as 80, `1_000` as 1000, `0b11` as 3 —
     values that are not the decimal reading of what was written; `08080` and `0x` fail, `007` happens to be 7 -/
@@ -516,6 +577,133 @@ theorem subnet_property (n : Int) (h0 : 0 ≤ n) (h1 : n ≤ 65535) : PSubNet n 
 /-- excluded point (KNOWN FINDING C20-substrate-network-wrap): outside 0 … 65535 the value is accepted and wraps -/
 theorem subnet_wrap_point : loadSubNet 65536 = 0 ∧ loadSubNet (-1) = 65535 ∧ loadSubNet 65578 = 42 ∧
     PSubNet 65578 (some (loadSubNet 65578)) = false := by decide
+
+/-! #### positive direction (acceptance) for the chain settings and strings; numbers written with a fraction -/
+
+/-- **Every valid chain configuration loads.** -/
+theorem chain_accepts (c : ChainIn) (h : chainValid c = true) : (loadChain c).isSome = true := by
+  simp only [chainValid, Bool.and_eq_true, decide_eq_true_eq, Bool.or_eq_true, Bool.not_eq_true'] at h
+  obtain ⟨⟨h1, h2⟩, h3⟩ := h
+  unfold loadChain
+  simp only
+  have a1 : ¬ (c.ri.getD defRi < 0) := by omega
+  have a3 : ¬ (c.bi.getD defBi < 1) := by omega
+  have a2 : (c.kind.hasConf && decide (c.bc.getD defBc < 1)) = false := by
+    rcases h2 with h2 | h2
+    · simp [h2]
+    · have : ¬ (c.bc.getD defBc < 1) := by omega
+      simp [this]
+  simp [a1, a2, a3]
+
+theorem loadField_some_iff (sp : FSpec) (w : Option Int) : (loadField sp w).isSome = fieldValid sp w := by
+  unfold loadField fieldValid
+  simp only
+  cases hu : (sp.unsigned && decide (w.getD sp.dflt < 0))
+  · cases hm : sp.minv with
+    | none => simp
+    | some m =>
+      by_cases hlt : w.getD sp.dflt < m
+      · have : ¬ (m ≤ w.getD sp.dflt) := by omega
+        simp [hlt, this]
+      · have : m ≤ w.getD sp.dflt := by omega
+        simp [hlt, this]
+  · simp
+
+/-- **Every valid field list loads, and only those** -/
+theorem loadFields_some_iff (specs : List FSpec) (ws : List (Option Int)) :
+    (loadFields specs ws).isSome = fieldsValid specs ws := by
+  induction specs generalizing ws with
+  | nil => cases ws <;> simp [loadFields, fieldsValid]
+  | cons sp sps ih =>
+    cases ws with
+    | nil => simp [loadFields, fieldsValid]
+    | cons w ws =>
+      simp only [loadFields, fieldsValid]
+      rw [← loadField_some_iff, ← ih ws]
+      cases loadField sp w <;> cases loadFields sps ws <;> simp
+
+/-- the failure case of the predicate the driver evaluates: the constructor fails only on invalid settings -/
+theorem describe_none (specs : List FSpec) (ws : List (Option Int)) (h : loadFields specs ws = none) :
+    PDescribe specs ws none = true := by
+  have := loadFields_some_iff specs ws
+  rw [h] at this
+  simp [PDescribe, ← this]
+
+/-- every non-empty string is accepted unchanged -/
+theorem str_accepts (f : SField) (v : Bytes) (h : v ≠ []) : loadStr f v = some v := by
+  simp [loadStr, h]
+
+/-- **Integers written as numbers load exactly** (int or float64 representation), for every field kind, whenever the
+    field's type can hold them: no truncation, no wrap, and they are accepted (validation permitting). -/
+theorem num_integer_exact (k : NKind) (n : Int) (hs : k = .u64 ∨ k = .u8 → 0 ≤ n) (h8 : k = .u8 → n ≤ 255) :
+    decodeNum k (n * 1000) = some (if k = .f64 then n * 1000 else n) := by
+  have ht : Int.tdiv (n * 1000) 1000 = n := Int.mul_tdiv_cancel n (by decide)
+  cases k with
+  | f64 => simp [decodeNum]
+  | i64 => simp [decodeNum, ht]
+  | u64 =>
+    have := hs (Or.inl rfl)
+    have h0 : ¬ (n * 1000 < 0) := by omega
+    simp [decodeNum, ht, h0]
+  | u8 =>
+    have := hs (Or.inr rfl)
+    have := h8 rfl
+    have h0 : ¬ (n * 1000 < 0) := by omega
+    have hm : n % 256 = n := Int.emod_eq_of_lt (by omega) (by omega)
+    simp [decodeNum, ht, h0, hm]
+
+/-- the model satisfies the predicate on valid input and on integers generally … -/
+theorem num_property_int (f : NField) (n : Int) (hf : f.kind ≠ .f64) (h8 : f.kind = .u8 → n ≤ 255) :
+    PNum f (n * 1000) (loadNum f (n * 1000)) = true := by
+  have hmod : n * 1000 % 1000 = 0 := Int.mul_emod_left n 1000
+  have hdiv : n * 1000 / 1000 = n := Int.mul_ediv_cancel n (by decide)
+  have ht : Int.tdiv (n * 1000) 1000 = n := Int.mul_tdiv_cancel n (by decide)
+  unfold loadNum PNum numValid numWanted decodeNum
+  cases hk : f.kind with
+  | f64 => exact absurd hk hf
+  | i64 =>
+    simp only [ht, hmod, hdiv]
+    cases hm : f.minv with
+    | none => simp
+    | some m => by_cases hlt : n < m
+                · have : ¬ (m ≤ n) := by omega
+                  simp [hlt, this]
+                · simp [hlt]
+  | u64 =>
+    by_cases h0 : n * 1000 < 0
+    · have : ¬ (0 ≤ n * 1000) := by omega
+      simp [h0, this]
+    · simp only [h0, if_false, ht, hmod, hdiv]
+      have h0' : 0 ≤ n * 1000 := by omega
+      cases hm : f.minv with
+      | none => simp
+      | some m => by_cases hlt : n < m
+                  · have : ¬ (m ≤ n) := by omega
+                    simp [hlt, this]
+                  · simp [hlt]
+  | u8 =>
+    have h255 := h8 hk
+    by_cases h0 : n * 1000 < 0
+    · have : ¬ (0 ≤ n * 1000) := by omega
+      simp [h0, this]
+    · have hn : 0 ≤ n := by omega
+      have hm8 : n % 256 = n := Int.emod_eq_of_lt hn (by omega)
+      simp only [h0, if_false, ht, hmod, hdiv, hm8]
+      cases hm : f.minv with
+      | none => simp [h255]
+      | some m => by_cases hlt : n < m
+                  · have : ¬ (m ≤ n) := by omega
+                    simp [hlt, this]
+                  · simp [hlt, h255]
+
+/-- … and the two KNOWN points where it does not (findings C20-fraction-truncated, C20-domain-id-wrap): 2.7 loads as 2,
+    domain id 257 loads as 1 and 300 as 44 -/
+theorem fraction_point_and_id_wrap_point :
+    loadNum ⟨.i64, some 1, 1⟩ 2700 = some 2 ∧ PNum ⟨.i64, some 1, 1⟩ 2700 (loadNum ⟨.i64, some 1, 1⟩ 2700) = false ∧
+    loadNum ⟨.u8, none, 1⟩ 257000 = some 1 ∧ loadNum ⟨.u8, none, 1⟩ 300000 = some 44 ∧
+    PNum ⟨.u8, none, 1⟩ 257000 (loadNum ⟨.u8, none, 1⟩ 257000) = false ∧
+    loadNum ⟨.i64, none, 1⟩ (-2700) = some (-2) ∧ loadNum ⟨.u64, none, 1⟩ (-500) = none ∧
+    loadNum ⟨.f64, none, 1⟩ 2500 = some 2500 := by decide
 
 end Property
 end Sygma.C20
